@@ -1,6 +1,50 @@
 """C02 - integer division obeys the division identity with the documented conventions."""
+import os
+import sys
 import core
 from core import hx, gen_mag
+
+# coq/gen/DivDispatch.v (scratch-memory formulas, kernel selection, allocation traces of karatsuba.rs / toom_3.rs, the
+# match arms of div_ops.rs::repr, the primitive-operand macro rows) is regenerated when this plug-in is imported, i.e.
+# before the proof phase of every run (tools/translate.py is shared and not ours to edit).  Unparseable source is not an
+# alarm: the last good copy of that fragment stays (marked STALE), the status goes into the evidence via extra_phase.
+sys.path.insert(0, os.path.join(core.ROOT, "tools"))
+try:
+    import translate_c02_r3
+    R3_STATUS = translate_c02_r3.generate(core.REPO, os.path.join(core.COQ, "gen"))
+except Exception as _ex:  # the generator itself broke: same fallback as an unparseable source
+    R3_STATUS = {"DivDispatch": "unparsed generator-failed: %s" % str(_ex)[:200]}
+
+# a run against a scratch checkout (VERIF_REPO) must not leave that checkout's fragment in a shared tree
+if os.path.realpath(core.REPO) != os.path.realpath("/repo") and os.path.realpath(core.COQ) == os.path.realpath(os.path.join(core.ROOT, "coq")):
+    import atexit
+
+    def _restore_r3():
+        try:
+            translate_c02_r3.generate("/repo", os.path.join(core.COQ, "gen"))
+        except Exception:
+            pass
+
+    atexit.register(_restore_r3)
+
+R3_TIED_BY = {
+    "DivMemReq": "C02_mem_div, C02_mem_mul, C02_mem_hook",
+    "MulKernelSel": "C02_mem_mul_same_len, C02_mem_mul",
+    "MulAllocEvents": "C02_mem_mul_same_len",
+    "ReprArms": "C02_typed_div_rem, C02_typed_div, C02_typed_rem",
+    "PrimRows": "C02_prim_rows",
+}
+
+
+def extra_phase(tier, seed, exes, oracle):
+    hist = {}
+    for name, st in R3_STATUS.items():
+        hist["translator_c02_r3:%s:%s" % (name, st.split(" ", 1)[0])] = 1
+    allok = all(st == "ok" for st in R3_STATUS.values())
+    sample = {"fragment": "coq/gen/DivDispatch.v (tools/translate_c02_r3.py from integer/src/div/*.rs, mul/*.rs, div_ops.rs, helper_macros.rs)",
+              "status": dict(R3_STATUS),
+              "tied_by": R3_TIED_BY if allok else "fragments not `ok` keep their last good copy (marked STALE) and are tied by the correspondence run only"}
+    return {"evaluations": 0, "hist": hist, "nontrivial": [], "samples": [sample], "failures": []}
 
 ID = "C02"
 READY = True
@@ -14,46 +58,67 @@ LEVEL_TEXT = ("Machine-checked Coq theorems for all inputs: (1) the sign fix-up 
               "ConstDivisor forms equal Z.quot/Z.rem resp. the Euclidean quotient/remainder for every sign combination and "
               "magnitude, a zero divisor is the DivideBy0 panic, and these specifications satisfy a = q*b + r with the demanded "
               "sign/range of r (and are the unique such pair); (2) faithful word-list models (any word size w, any length) of "
-              "div_by_word_in_place, rem_by_word, div_by_dword_in_place, rem_by_dword (incl. the power-of-two shortcuts), the "
-              "Knuth-D step div_rem_highest_word, the whole schoolbook division, the Burnikel-Ziegler recursion (small-quotient "
-              "step with its add-back loop, same-length step, block loop; fuel proved sufficient: at most 4 add-backs, depth < "
-              "quotient length), the THRESHOLD_SIMPLE switch, normalisation + top-word quotient carry "
-              "(div_rem_unshifted_in_place), div_rem_large, the size dispatch of DivRem/Div/Rem for TypedRepr and the "
-              "ConstDivisor paths of div_const.rs::repr (stored shift, Small x Single/Double arms, rem_dword/rem_large) all "
-              "return exactly the floor quotient and remainder - so ConstDivisor = plain division at word level - relative to "
-              "the contracts of num-modular's primitives and of the multiplication kernel, which the oracle's instance "
-              "satisfies provably (unconditional theorem for it). Models tied to the code by a correspondence run on every check.")
-LEVEL_NOTE = ("num-modular's reciprocal division primitives (div_rem_1by1/2by1/3by2/4by2/2by2) are section variables with their "
-              "contract (external crate, exercised by the run). mul::add_signed_mul (C01) enters the divide-and-conquer theorems "
-              "as a contract. Memory scratch sizing (memory_requirement_exact) is not modelled. Primitive-typed operands "
-              "(u8..i128) and is_multiple_of_const are compared only. Trusted: Coq kernel, translator, extraction + FastZ.v, "
-              "zarith, harness.")
-TECHNIQUE = "Coq proof (sign tables regenerated from source; word-level algorithm models) + extracted-model correspondence run"
+              "div_by_word_in_place, rem_by_word, div_by_dword_in_place, rem_by_dword (incl. the power-of-two shortcuts; the "
+              "index arithmetic `while i > 2 { i -= 2 } if i == 2` of fast_rem_by_normalized_word/dword is modelled with "
+              "out-of-range / wrap-around as panics and proved panic-free and equal to the list recursions), the "
+              "Knuth-D step div_rem_highest_word, the whole schoolbook division, the Burnikel-Ziegler recursion (fuel proved "
+              "sufficient: at most 4 add-backs, depth < quotient length), the THRESHOLD_SIMPLE switch, normalisation + top-word "
+              "quotient carry, div_rem_large, and the ConstDivisor paths of div_const.rs::repr return exactly the floor quotient "
+              "and remainder - so ConstDivisor = plain division at word level; num-modular's reciprocal division and "
+              "mul::add_signed_mul are transcribed too (unconditional theorems for w >= 8); (3) the 12 TypedRepr/TypedReprRef "
+              "implementations of DivRem/Div/Rem with their ownership arms REGENERATED from div_ops.rs::repr (which helper, which "
+              "operand in which position, the `len >=` test, the shorter-dividend arms incl. clone_from_slice into the divisor's "
+              "buffer) over transcribed helpers (div_rem_in_lhs with push_resizing, div_large = erase_front only, rem_large = copy "
+              "+ shift back only, *_large_dword, Repr::from_buffer with pop_zeros) return the CANONICAL Repr of a/b and a mod b for "
+              "every ownership combination, or DivideBy0; (4) scratch memory: the exact peak of the recursion (allocation / "
+              "recursive-call traces of karatsuba.rs and toom_3.rs, requirement formulas and kernel selection REGENERATED; chunk "
+              "splitting and Burnikel-Ziegler transcribed on lengths) never exceeds div::memory_requirement_exact resp. "
+              "mul::memory_requirement_exact, for every pair of lengths (induction; Toom-3 depth d with 32*3^d <= 2n-5 and "
+              "3^20 > 2^31 give the 13*ceil_log2 term); (5) primitive-typed operands and is_multiple_of_const = truncating "
+              "division resp. (r = 0) with the exact unwrap-panic class, the macro rows REGENERATED and checked against the model. "
+              "Models tied to the code by a correspondence run on every check (fidelity 100%).")
+LEVEL_NOTE = ("Hand-transcribed (tied by the run, not regenerated): the bodies of the word kernels, helpers::add_signed_mul_split_into_chunks "
+              "(memory model), the helpers of div_ops.rs::repr, Buffer::{pop_zeros, push_resizing, erase_front, clone_from_slice}. "
+              "The memory theorems are about lengths; that the allocator hands out exactly the requested words (memory.rs, no padding "
+              "for Word slices) is observed by the run: the smallest scratch size with which the real kernel completes (bisection through "
+              "the hook div_kernel_scratch / mul_kernel_scratch) equals the model's peak in every case. The canonical Repr of a result is "
+              "proved for the model; the run compares values (all call forms must agree). A proof break of a regenerated fragment "
+              "without a failing input is reported as VIOLATION ... no-failing-input-found. Trusted: Coq kernel, translators, "
+              "extraction + FastZ.v, zarith, harness.")
+TECHNIQUE = ("Coq proof (sign tables, ownership arms, memory formulas and allocation traces, primitive macro rows regenerated from source; "
+             "word-level algorithm models) + extracted-model correspondence run")
 RULE = ("cases = call form (every operator / trait / ownership variant / Assign twin is evaluated inside one case and must agree) x "
         "type pairing {UBig, IBig, UBig-IBig, IBig-UBig, ConstDivisor, primitives, is_multiple_of(_const)} x 4 sign combinations x "
         "divisor length {1,2,3,4,5,8,16,31,32,33,34,40,64,65,66 words} x quotient length {dividend shorter, 0,1,2,3,31,32,33,34,"
         "40,66,70,100 words} x divisor pattern {1, 2^k word, word MAX, 2^64..2^127 powers of two, low word zero, top word "
         "1/2^63/MAX, low part all ones, random} x dividend construction {random, q*b + r with r in {0,1,b-1,random} and q all-ones / "
         "B^k / B^k-1 / random (drives the q-hat correction and the quotient carry)}; hook-level cases force the schoolbook and the "
-        "divide-and-conquer kernels at lengths on both sides of THRESHOLD_SIMPLE. Division by zero in every form. Non-trivial = "
-        "both operands non-zero and the oracle evaluated the Coq specification; distinct = distinct case texts.")
+        "divide-and-conquer kernels at lengths on both sides of THRESHOLD_SIMPLE; scratch-memory cases (km / mm) measure the smallest "
+        "sufficient scratch of the division kernels and of mul::add_signed_mul at lengths around 32/33 (division) and 24/25, 48..51, "
+        "96/97, 192/193, 386/387, 579 (multiplication inside). Division by zero in every form. Non-trivial = both operands non-zero "
+        "and the oracle evaluated the Coq specification (memory cases: scratch actually used); distinct = distinct case texts.")
 EXPLANATION = ("Theorems in coq/props/C02.v (sign layer = spec for all signs; spec has the identity and is unique; word kernels, "
                "Knuth D, whole schoolbook division, divide-and-conquer (sound and total), algorithm switch, normalisation/top-word "
-               "carry, div_rem_large, the TypedRepr dispatch and the ConstDivisor paths = floor division, relative to the "
-               "multiplication and num-modular contracts; unconditional for the extracted instance). Tie: tables regenerated from div_ops.rs each run; "
-               "all other models compared word-for-word with the implementation (fidelity must be 100%).")
+               "carry, div_rem_large, ConstDivisor paths = floor division, unconditional for the transcribed instance; round 3: the "
+               "TypedRepr ownership arms build the canonical Repr of quotient and remainder, scratch memory is sufficient for all "
+               "lengths, the index loops of fast_rem_* are panic-free, primitive macro rows). Tie: sign tables (tools/translate.py) and "
+               "coq/gen/DivDispatch.v (tools/translate_c02_r3.py: memory formulas, kernel selection, allocation traces, match arms, macro "
+               "rows) are regenerated from the sources each run; every other model is compared with the implementation "
+               "(fidelity must be 100%), the memory model through bisection of the smallest sufficient scratch.")
 TRUSTED_BASE = [
     "Coq 8.16.1 kernel",
     "tools/translate.py renders impl_ibig_div/rem/divrem/div_euclid/rem_euclid/divrem_euclid and impl_ubig_ibig_* faithfully (magnitude `/`, `%`, div_rem -> Z./, Z.modulo on non-negative magnitudes; with_sign -> signed)",
-    "num-modular 0.6 reciprocal division primitives: contract assumed (a = q*d + r, r < d under the normalisation precondition), instantiated by exact division in the oracle",
+    "tools/translate_c02_r3.py reads the memory_requirement functions (usize arithmetic, .min, ceil_log2, if/else), the allocate_slice_* / add_signed_mul_same_len sequence with its block structure, the match arms of the 12 TypedRepr impls and the primitive macro rows; the meaning of its atoms (Layout::array::<Word>(k) = k words, ceil_log2, EvAlloc/EvCall/EvOpen/EvClose, ArmDword/ArmLargeDword/ArmShort/ArmLargeLarge) is hand-written in Int/DivMemBase.v, DivMemModel.v, DivOwn.v",
+    "num-modular 0.6 reciprocal division primitives: transcribed (Int/DivNumModular.v) and proved; the contract form remains for the general theorems",
     "extraction: ExtrOcamlBasic + ExtrOcamlZBigInt + coq/extract/FastZ.v; OCaml 4.13.1 + zarith; oracle/common.ml, oracle/driver_c02.ml",
-    "Rust harness harness/src/bin/c02.rs (values moved through raw words), hook dashu_int::verif_hooks::div_kernel",
-    "shift kernels (shl_in_place / shr_in_place) and add/sub/sub_mul word kernels are re-modelled locally in Int/DivWordModel.v with their contracts proved there; mul::add_signed_mul is a contract (C01)",
+    "Rust harness harness/src/bin/c02.rs (values moved through raw words), hooks dashu_int::verif_hooks::{div_kernel, div_kernel_scratch, div_scratch_words, mul_kernel_scratch, mul_scratch_words}",
+    "shift kernels (shl_in_place / shr_in_place) and add/sub/sub_mul word kernels are re-modelled locally in Int/DivWordModel.v with their contracts proved there; mul::add_signed_mul is C01's model (contract proved for w >= 8)",
 ]
 ASSUMPTIONS = [
     "UBig::from_words / as_words / IBig::from_parts / as_sign_words transport values faithfully",
     "a result that is not representable in a primitive output type (e.g. IBig(-7) % 3u8, i8::MIN / IBig(-1)) must panic; the panic class is C16's concern",
     "is_multiple_of_const(0) may panic with the primitive's own message (const fn)",
+    "running out of scratch memory shows as the allocator's panic `internal error: not enough memory allocated` (memory.rs), which is what the bisection of the km / mm cases observes",
 ]
 
 W = 64
